@@ -27,10 +27,7 @@ func (m *Mutex) TryLock() bool {
 
 // Unlock releases the mutex. It only enables other threads, so it is not a scheduling point.
 func (m *Mutex) Unlock() {
-	if e := current(); e != nil {
-		e.zombieCheck()
-		e.epoch++
-	}
+	Bump()
 	if !m.locked {
 		panic("sync: unlock of unlocked mutex")
 	}
@@ -52,10 +49,7 @@ func (m *RWMutex) RLock() {
 
 // RUnlock releases a read lock.
 func (m *RWMutex) RUnlock() {
-	if e := current(); e != nil {
-		e.zombieCheck()
-		e.epoch++
-	}
+	Bump()
 	if m.readers <= 0 {
 		panic("sync: RUnlock of unlocked RWMutex")
 	}
@@ -87,10 +81,7 @@ func (m *RWMutex) Lock() {
 
 // Unlock releases the write lock.
 func (m *RWMutex) Unlock() {
-	if e := current(); e != nil {
-		e.zombieCheck()
-		e.epoch++
-	}
+	Bump()
 	if !m.writer {
 		panic("sync: Unlock of unlocked RWMutex")
 	}
